@@ -69,6 +69,9 @@ def main():
             continue
         mp = os.path.join(d, 'meta.json')
         m = json.load(open(mp))
+        if m.get('frozen'):
+            print('=== %s: frozen (%s)' % (sid, m['frozen'][:80]), flush=True)
+            continue
         own = m['breaks_property']
         props = ','.join([own] + [p for p in m.get('checks', {})
                                   if p != own])
